@@ -178,6 +178,39 @@ def work(item):
             nontriv.append(hash((label, plabel)))
             for k, w in check_ids(label, plabel, pt, planted, val(r)):
                 viol.append((f"C09|{k}", f"{label} [{plabel}]: {w}", {"kind": kind, "label": label, "plabel": plabel, "doc": terms.doc(pt), "planted": planted}))
+    elif kind == "reset":
+        # the editor flow inside ONE session: take the MathML the library returned, add elements that have no id yet, set it again
+        _, cases = item
+        setup = [["rules_dir", mcx.RULES], ["pref", "TTS", "none"]]
+        edits = [("</math>", "<mo>+</mo><mi>q</mi></math>"), ("</mrow>", "<mo>-</mo><msup><mi>zz</mi><mn>7</mn></msup></mrow>"), ("<mi ", "<mn>5</mn><mi ")]
+        ops = []
+        for label, t in cases:
+            ops.append([["mathml", terms.doc(t)]] + [["mathml_sub", {"r": 0}, a, b_] for a, b_ in edits] + [["mathml_sub", {"r": 1}, "</math>", "<mtext>w</mtext></math>"]])
+        _, res = mc.run_cases(setup, ops)
+        for (label, t), r in zip(cases, res):
+            if not is_ok(r[0]):
+                continue
+            old_ids = [i for i in ids_of(val(r[0]))]
+            for k, x in enumerate(r[1:], 1):
+                counts["evaluations"] += 1
+                if is_panic(x):
+                    counts["skipped_panics"] += 1
+                    continue
+                if not is_ok(x):
+                    continue
+                nontriv.append(hash((label, "reset", k)))
+                try:
+                    tout = terms.parse_xml(val(x))
+                except ET.ParseError:
+                    continue
+                ids = all_ids(tout)
+                from collections import Counter
+                dup = [i for i, c in Counter(i for i in ids if i).items() if c > 1]
+                replay = {"kind": "reset", "label": label, "doc": terms.doc(t)}
+                if dup:
+                    viol.append(("C09|reset|duplicate-id", f"{label}: after editing the returned MathML (edit #{k}) and setting it again in the same session, id(s) {short(dup, 60)} occur more than once", replay))
+                elif any(not i for i in ids):
+                    viol.append(("C09|reset|missing-id", f"{label}: after edit #{k} and a second set_mathml an element has no id", replay))
     else:
         _, engine, cases, seqs = item
         setup = [["rules_dir", mcx.RULES], ["pref", "TTS", engine], ["pref", "Bookmark", "true"], ["pref", "BrailleCode", "Nemeth" if engine != "SAPI5" else "UEB"]]
@@ -241,7 +274,11 @@ def confirm(replay, verbose=False):
     mcx._worker_mc = mc
     try:
         t = terms.parse_xml(replay["doc"]).kids[0]
-        if replay["kind"] in ("plant", "plant-lite"):
+        if replay["kind"] == "reset":
+            # sessions hand out ids per call: replay the term after another one, as in the run
+            v, _, _ = work(("reset", [("warm-up", terms.row(terms.mi("a"), terms.mo("+"), terms.mi("b"))), (replay["label"], t)]))
+            v = [x for x in v if x[2]["label"] == replay["label"]]
+        elif replay["kind"] in ("plant", "plant-lite"):
             # re-run exactly the planted document
             setup = [["rules_dir", mcx.RULES], ["pref", "TTS", "none"]]
             _, res = mc.run_cases(setup, [[["mathml", replay["doc"]]]])
@@ -281,6 +318,8 @@ def main(tier):
     run.count("deviation_terms", len(devs))
     for i in range(0, len(devs), 300):
         jobs.append(("plant-lite", devs[i:i + 300]))
+    for i in range(0, len(small), 40):
+        jobs.append(("reset", small[i:i + 40]))
     seqs1 = [(a,) for a in NAV1]
     seqs2 = [(a, b) for a in NAV1 for b in NAV1]
     hist_corp = small if tier == "quick" else corp
@@ -309,7 +348,7 @@ def main(tier):
             run.nontriv(h)
     return run.finish(
         rule="plantings: every spine term of G to depth 2 and every trigger term x {no ids, one author id at each element in turn, ids on all "
-             "elements, duplicate ids, an author id that looks generated}; histories: per expression (quick: depth-1 terms + triggers; thorough: depth 2) "
+             "elements, duplicate ids, an author id that looks generated}; the editor flow (returned MathML + elements without ids, set again in the same session: ids stay distinct); histories: per expression (quick: depth-1 terms + triggers; thorough: depth 2) "
              f"all navigation sequences of length <= 2 over {len(NAV1)} commands, Bookmark=true speech under SSML and SAPI5, node-from-braille for the first "
              f"{NCELLS} cells, and cursor routing (node-from-braille -> set_navigation_node with the reported offset -> command). "
              "distinct_nontrivial = distinct (expression, planting) and (expression, query, answer) combinations",
